@@ -10,6 +10,6 @@ CONSTANTS
   HistOps = {}
   HistKinds = {}
   HistFails = {}
-INVARIANTS TypeOK DomainRight Memoryless HandedOwn SigCorrect NoSignatureWithoutDomain ErrorHasNoSignatures
+INVARIANTS TypeOK DomainRight Memoryless HandedOwn SigCorrect NoSignatureWithoutDomain ErrorHasNoSignatures RefusedForCause
 PROPERTIES ReplyStable
 CHECK_DEADLOCK FALSE
